@@ -34,7 +34,7 @@ type c16case struct {
 }
 
 func RunC16(c *lib.Ctx) {
-	c.Rule = "case = one seeded sequence of add / backup / delete-backup / list operations on a real single RaftNode (3-8 backups), followed by restoring EVERY backup still listed into a fresh directory (what `qed restore` does) and opening a new RaftNode on it with a fresh raft directory: listed metadata must equal the version at backup time, the listing must equal created minus deleted, the restored node must report exactly version v, prove membership/consistency for events <= v against the originally issued snapshots, not know later events, and assign v+1, v+2, ... with reference-equal digests to further insertions (enough of them to cross the raft index recorded in the backup); non-trivial = backup with >= 1 event restored; distinct by (ops shape, backup version class)."
+	c.Rule = "case = one seeded sequence of add / backup / delete-backup / list operations on a real single RaftNode (3-8 backups), followed by restoring EVERY backup still listed into a fresh directory (what `qed restore` does) and opening a new RaftNode on it with a fresh raft directory: listed metadata must equal the version at backup time, the listing must equal created minus deleted, the restored node must report exactly version v, prove membership/consistency for events <= v against the originally issued snapshots, not know later events, and assign v+1, v+2, ... with reference-equal digests to further insertions (enough of them to cross the raft index recorded in the backup); a backup taken on a node that was brought up to date by raft state transfer must restore to exactly the tables that node holds; non-trivial = backup with >= 1 event restored; distinct by (ops shape, backup version class)."
 	c.Assume = []string{"backups of an empty log are not taken (the recorded version v-1 is undefined there)", "restore = rocksdb BackupEngine.RestoreDBFromBackup(id, dir, dir) exactly as cmd/restore.go does"}
 	n := c.Q(5, 40)
 	r0 := c.Rand("seq")
@@ -55,6 +55,13 @@ func RunC16(c *lib.Ctx) {
 			continue
 		}
 		runC16UnderLoad(c, id, r0.Uint64())
+	}
+	for k := 0; k < c.Q(1, 5); k++ {
+		id := fmt.Sprintf("transferred%d", k)
+		if c.Only != "" && c.Only != id {
+			continue
+		}
+		runC16Transferred(c, id, r0.Uint64())
 	}
 }
 
